@@ -159,10 +159,44 @@ fn gen_rules() -> BoxedStrategy<Value> {
     gen::case2(rules::rooted(cfg), gen::data_docs())
 }
 
+
+/// accumulated state: see common::sweep
+fn sweep_item(kind: u64, k: usize) -> (Value, Value) {
+    match kind % 3 {
+        0 => (json!({"==": [format!(" {} ", 1000 + k), 1000 + k]}), Value::Null),
+        1 => (json!({"!=": [format!("0x{:x}", 4096 + k), {"var": "n"}]}), json!({"n": 4096 + k})),
+        _ => (json!({"==": [[format!("{}", k)], format!("{}", k)]}), Value::Null),
+    }
+}
+
+fn check_state_sweep(case: &Value, obs: &mut Obs) -> Result<(), String> {
+    let w = case["w"].as_u64().unwrap_or(1) as usize;
+    let kind = case["kind"].as_u64().unwrap_or(0);
+    sweep(w, &|k| sweep_item(kind, k), obs)?;
+    obs.nt(&format!("sweep kind {} W {}", kind, if w < 64 { "<64" } else if w < 128 { "64-127" } else { "128+" }));
+    Ok(())
+}
+
+fn fixed_state_sweeps() -> Vec<Value> {
+    sweep_cases(3, 160)
+}
+
 pub fn property() -> Property {
     Property {
         id: "C07",
         subs: vec![
+            Sub {
+                name: "state_sweep",
+                about: "accumulated state: for every W in 1..160 and each kind of keyed work of this operator family (padded decimal strings against numbers, hexadecimal strings against data, one-element arrays against strings), W hot items are evaluated twice, then a new item, the hot set again, another new item, and everything in reverse; every call against the reference model - a cache, pool or table with any capacity up to 160 is driven exactly over its boundary.",
+                nontrivial: "every case.",
+                strategy: None,
+                fixed: Some(fixed_state_sweeps),
+                fixed_exhaustive: false,
+                check: check_state_sweep,
+                quick: 0,
+                thorough: 0,
+                small_stack: false,
+            },
             Sub {
                 name: "js_corpus",
                 about: "every ordered pair of 158 JSON values with the == bit recorded from a real JavaScript engine (fresh instances); asked as literal operands, through var, swapped, negated, and via js_op::abstract_eq/ne.",
